@@ -29,7 +29,11 @@ _orig_iterdir = pathlib.Path.iterdir
 _PERM = [None]
 
 
+_ITERDIR_CALLS = [0]
+
+
 def _iterdir(self):
+    _ITERDIR_CALLS[0] += 1
     items = sorted(_orig_iterdir(self))
     k = _PERM[0]
     if k is not None and len(items) > 1:
@@ -149,6 +153,9 @@ def check(case):
                 o = ([x.specifier() for x in wn.lexicons()], [x.specifier() for x in wn.lexicons(lexicon=lid)])
                 seen.setdefault(repr(o), k)
                 env.close_pool()
+            if not _ITERDIR_CALLS[0]:
+                print(f'NOTE property={PROP}: the library no longer lists directories through pathlib.Path.iterdir - '
+                      f'the directory-order exploration is vacuous')
             if len(seen) > 1:
                 V.append((f'route:depends-on-directory-order:{r1}',
                           f'the same collection gives different results depending on the order in which the directory '
